@@ -18,7 +18,8 @@ check("C03", "One-step (inductive) obligations on the chain index and on the utx
       "trusted: Kani/CBMC, ahash shim (association list), sizes concrete per harness", "Kani/CBMC bounded model checking of RingItem / BlockRing / Transaction::on_chain_reorganization steps", "DESIGN.md 4/C03")
 check("C08", "Routing work computed for a transaction equals the reference (fee halved per extra hop, zero unless the path is contiguous and ends at the creator) for every path of up to 5 (8) hops with symbolic keys and fees; decided by z3 over the MIR of the real function, counterexamples replayed natively.",
       "trusted: mirsym's MIR semantics and std models (/verif/mirsym/models.py), z3; fee-transaction construction and the lottery are outside", "MIR-to-SMT symbolic execution (mirsym) decided by z3", "DESIGN.md 4/C08")
-NOT_APPLICABLE.setdefault('C01', NA_PENDING)
+check("C01", "Gating obligations on the real validation code: the block-level per-transaction step accepts only when Transaction::validate accepted, detects every re-spend of an output already recorded for the block or repeated inside the transaction and records every value-carrying input; the pool admits a transaction only after Transaction::validate(.., true) returned true. Decided by z3 over the MIR, all paths of the encoded bodies, small input counts.",
+      "trusted: mirsym MIR semantics, std/map models, the utxo-key layout model; callees are uninterpreted; chain-history facts are outside", "MIR-to-SMT symbolic execution (mirsym) decided by z3", "DESIGN.md 4/C01")
 NOT_APPLICABLE.setdefault('C02', NA_PENDING)
 NOT_APPLICABLE.setdefault('C04', NA_PENDING)
 NOT_APPLICABLE.setdefault('C05', NA_PENDING)
